@@ -7,6 +7,7 @@ import Resynth.Spec.Tunnel
 import Resynth.Spec.Net
 import Resynth.Spec.Grammar
 import Resynth.Spec.Lexical
+import Resynth.Spec.Calling
 /-!
 # Line-protocol driver over the model: one request per line, one response per line.
 Mirrors /verif/harness (which runs the real Rust code) request for request.
@@ -112,6 +113,12 @@ def cmdParse (args : List String) : String := Id.run do
     trees := trees ++ ss.map fmtStmt
     return s!"ok {ntok} {" ".intercalate trees}"
 
+def mkCls : String → Option String
+  | "tcp" => some "ipv4::tcp::TcpFlow" | "udp" => some "ipv4::udp::UdpFlow" | "icmp" => some "ipv4::icmp::Icmp"
+  | "frag" => some "ipv4::IpFrag" | "vxlan" => some "vxlan::Vxlan" | "gre" => some "gre::Gre"
+  | "erspan1" => some "erspan1::Erspan1" | "erspan2" => some "erspan2::Erspan2" | "bufio" => some "io::BufIO"
+  | _ => none
+
 def parseVal (results : List Val) (s : String) : Option Val :=
   if s == "nil" then some .nil
   else if s.startsWith "$" then
@@ -136,6 +143,17 @@ def parseVal (results : List Val) (s : String) : Option Val :=
     | ["sock4", a, p] => do some (.sock4 (← a.toNat?) (← p.toNat?))
     | ["str", v] => (ofHex v).map .str
     | ["timejump", v] => v.toNat?.map .timejump
+    | ["pkt", v] => (ofHex v).map fun b => .pkt (Packet.ofFrame b)
+    | ["pktgen", v] =>
+      let inner := ((v.drop 1).dropEnd 1).toString
+      ((inner.splitOn ",").filter (· != "")).mapM ofHex |>.map fun bs => .pktgen (bs.map Packet.ofFrame)
+    | ["mk", k] => (mkCls k).map fun c => .obj 0 c
+    | ["mkm", km] =>
+      match km.splitOn "." with
+      | [k, m] => (mkCls k).bind fun c => match Gen.lib.get (c ++ "." ++ m) with
+        | some (.func f) => some (.method 0 c f.path)
+        | _ => none
+      | _ => none
     | "func" :: rest =>
       let p := ":".intercalate rest
       match Gen.lib.get p with | some (.func f) => some (.func f.path) | _ => none
@@ -326,6 +344,16 @@ def cmdOracle (args : List String) : String :=
     | some frame =>
       let d := Spec.ipOfFrame (raw == "1") frame
       s!"ok ipok={Spec.ipv4Ok d} src={Spec.ipSrc d} dst={Spec.ipDst d} proto={Spec.ipProto d} id={Spec.ipId d} ttl={Spec.ipTtl d} off={Spec.ipFragOff d} evil={Spec.ipEvil d} df={Spec.ipDF d} mf={Spec.ipMF d} tcpok={Spec.l4Ok 6 d} udpok={Spec.l4Ok 17 d} udplen={Spec.udpLenOk d} udpcsum={Spec.udpCsumField d} sport={Spec.udpSrcPort d} dport={Spec.udpDstPort d} icmptype={Spec.u8At d 20} icmpid={Spec.u16At d 24} icmpseq={Spec.u16At d 26} icmpok={Spec.icmpEchoOk (Spec.u8At d 20) (Spec.u16At d 24) (Spec.u16At d 26) d} ethok={Spec.ethMatchesIp frame} ethbc={Spec.ethBroadcastMatchesIp frame} len={d.length}"
+  | "bind" :: p :: rest =>
+    match Gen.lib.get p with
+    | some (.func f) =>
+      match parseArgSpecs [] rest with
+      | none => "bad-request args"
+      | some specs =>
+        match Spec.bind f (specs.map fun a => (a.name, a.val)) with
+        | none => "err Type"
+        | some (args, tail) => s!"ok args={";".intercalate (args.map fmtVal)} extra={";".intercalate (tail.map fmtVal)}"
+    | _ => "bad-request nofunc"
   | "lex" :: lines =>
     -- Spec.lexLine over the given lines, threading the pending string (format of `lexlines` without end=)
     Id.run do
